@@ -521,6 +521,12 @@ impl Pos {
         (l, r)
     }
 
+    /// does the side to move have at least one legal move? (stops at the first)
+    pub fn has_legal_move(&self) -> bool {
+        let us = self.stm;
+        self.pseudo_moves().iter().any(|m| !self.make(m).in_check(us))
+    }
+
     pub fn legal_moves(&self) -> Vec<Move> {
         let us = self.stm;
         self.pseudo_moves().into_iter().filter(|m| !self.make(m).in_check(us)).collect()
